@@ -113,6 +113,15 @@ def rule_pr(ctx):
             rebind = n
             break
     ok = rebind is not None and not flow.enclosing_guards(rebind, fn)
+    if rebind is not None:
+        # a plain copy: freezing would pin the order of every reshuffling stage and evaluate lazy applies at wrap time
+        c_ = rebind.value
+        frz = [kw.value for kw in c_.keywords if kw.arg == 'freeze'] + list(c_.args[:1])
+        plain = not frz or all(A.is_const(v, False) for v in frz)
+        rep.ob('PR', K.key(cls, '__init__', 'pipeline-copied-unfrozen'), plain, rebind,
+               '' if plain else 'the wrapper profiles `%s`: a frozen copy is another pipeline (reshuffling stages keep one order, '
+               'lazy applies are evaluated once, random stages become indexable) and freezing draws from the original\'s generator'
+               % A.short(c_, 50))
     rep.ob('PR', K.key(cls, '__init__', 'parameter-rebound-to-its-copy'), ok, rebind or fn,
            '' if ok else 'the constructor must first rebind its parameter to `%s.copy()` unconditionally' % param)
     stores = []
